@@ -3,13 +3,21 @@
 (*   kind "mat"  : every matrix of the configured shapes over {-1,0,1}                                   *)
 (*   kind "pert" : dyadic perturbation  M + 2^-Ex * e_i e_j'  (numerators  2^Ex*M + e_i e_j'  are emitted) *)
 (*   kind "resp" : matrix plus a two-valued / constant response y in {0,1}^rows (PLS)                      *)
+(*   kind "prod" : LARGER shapes (classes K1/K2 of INPUT-CLASSES.md: tall, wide, row counts around the      *)
+(*                 thread-slice and block boundaries 4, 8, 16, 32, 64 +-1): integer matrices of low rank      *)
+(*                 M = A B with A (n x r) and B (r x p) small-integer tables given by closed formulas, rows    *)
+(*                 repeated with period `rep` (duplicate rows); the exact rank is NOT taken from r: it is       *)
+(*                 computed by the same rational elimination as for every other kind                          *)
+(*   kind "prodresp" : the same with a two-valued response (rows <= ProdRespRows so that the Krylov numbers    *)
+(*                 stay inside TLC's integers)                                                              *)
 (* Shapes with more than FullCells cells are sampled deterministically when SampleMod > 1 (cell index mod  *)
 (* SampleMod = SampleRes); smaller shapes are always complete.  Every case is printed through Emit with the exact rank *)
 (* of the raw and of the column-centred matrix, the constant-column flags and (resp) whether X_c'y_c # 0    *)
 (* and the exact number of PLS1 latent variables (dimension of the Krylov space of X_c'X_c and X_c'y_c).   *)
 EXTENDS ExactRank, TLC, Json
 CONSTANTS MaxR, MaxC, FullCells, SampleMod, SampleRes, Ex, Kinds,
-          YNorm      \* TRUE: only responses with y[1] = 0 (y and 1 - y have the same centred direction up to sign)
+          YNorm,     \* TRUE: only responses with y[1] = 0 (y and 1 - y have the same centred direction up to sign)
+          ProdTier   \* "none" | "quick" | "thorough": which list of larger shapes the kinds "prod" / "prodresp" run through
 
 Vals == {-1, 0, 1}
 RECURSIVE Pow(_, _)
@@ -22,31 +30,86 @@ Idx(M) == CellIdx(M, Len(M[1]), Len(M) * Len(M[1]))
 Sampled(M) == Len(M) * Len(M[1]) <= FullCells \/ SampleMod = 1 \/ Idx(M) % SampleMod = SampleRes
 Mats == UNION {[1..nr -> [1..nc -> Vals]] : nr \in 1..MaxR, nc \in 1..MaxC}
 
+\* ---- larger shapes (kind "prod")
+ProdShapesQuick == {<<4, 2>>, <<5, 3>>, <<6, 4>>, <<7, 2>>, <<8, 3>>, <<9, 5>>, <<2, 5>>, <<3, 6>>, <<4, 8>>, <<4, 4>>, <<5, 5>>, <<4, 5>>, <<5, 4>>,
+                    <<15, 3>>, <<16, 2>>, <<17, 4>>, <<32, 3>>, <<33, 2>>, <<1, 4>>, <<6, 1>>}
+ProdShapesThorough == ProdShapesQuick \cup {<<31, 3>>, <<63, 2>>, <<64, 3>>, <<65, 4>>, <<3, 8>>, <<2, 7>>, <<6, 6>>, <<7, 8>>, <<9, 2>>, <<10, 3>>,
+                                            <<12, 4>>, <<24, 3>>, <<25, 2>>, <<48, 2>>, <<5, 2>>, <<6, 3>>, <<7, 5>>, <<8, 8>>}
+ProdShapes == CASE ProdTier = "quick" -> ProdShapesQuick [] ProdTier = "thorough" -> ProdShapesThorough [] OTHER -> {}
+ProdSeeds == IF ProdTier = "thorough" THEN 0..5 ELSE 0..1
+ProdRespRows == 5
+AEntry(i, k, s) == ((i * i + 3 * i * k + 2 * k + s) % 5) - 2
+BEntry(k, j, s) == ((k + 2 * j + j * k * (s + 1) + s) % 3) - 1
+\* rep = 0: the first column of A is the (centred) row index, so that all rows of a tall matrix differ; rep > 0: rows repeat with period rep
+AEntryX(i, k, s, rep, n) == IF rep = 0 THEN (IF k = 1 THEN i - ((n + 1) \div 2) ELSE AEntry(i, k, s)) ELSE AEntry(((i - 1) % rep) + 1, k, s)
+RECURSIVE ProdCell(_, _, _, _, _, _)
+ProdCell(i, j, r, s, rep, n) == IF r = 0 THEN 0 ELSE AEntryX(i, r, s, rep, n) * BEntry(r, j, s) + ProdCell(i, j, r - 1, s, rep, n)
+ProdMat(n, p, r, s, rep) == [i \in 1..n |-> [j \in 1..p |-> ProdCell(i, j, r, s, rep, n)]]
+ProdY(n, s) == [i \in 1..n |-> IF s % 4 = 3 THEN 1 ELSE (i \div (1 + (s % 3))) % 2]      \* s % 4 = 3: a constant response
+Min2(u, v) == IF u < v THEN u ELSE v
+
 VARIABLES kind, M, y, ex
 vars == <<kind, M, y, ex>>
 Perturb(B, i, j) == [a \in 1..Len(B) |-> [b \in 1..Len(B[1]) |-> Pow(2, Ex) * B[a][b] + (IF a = i /\ b = j THEN 1 ELSE 0)]]
-Init == \E B \in Mats :
+InitSmall == \E B \in Mats :
           /\ Sampled(B)
           /\ \/ "mat" \in Kinds /\ kind = "mat" /\ M = B /\ y = <<>> /\ ex = 0
              \/ /\ "pert" \in Kinds /\ kind = "pert" /\ y = <<>> /\ ex = Ex
                 /\ \E pos \in {<<1, 1>>, <<Len(B), Len(B[1])>>} : M = Perturb(B, pos[1], pos[2])
              \/ /\ "resp" \in Kinds /\ kind = "resp" /\ M = B /\ ex = 0 /\ Len(B) >= 2
                 /\ y \in [1..Len(B) -> {0, 1}] /\ (YNorm => y[1] = 0)
+InitProd == \E sh \in ProdShapes : \E r \in 0..Min2(3, Min2(sh[1], sh[2])) : \E s \in ProdSeeds : \E rep \in {0, sh[1], 2} :
+          /\ rep <= sh[1] /\ (r = 0 => (s = 0 /\ rep = sh[1])) /\ ex = 0
+          /\ M = ProdMat(sh[1], sh[2], r, s, rep)
+          /\ \/ kind = "prod" /\ y = <<>>
+             \/ kind = "prodresp" /\ sh[1] \in 2..ProdRespRows /\ y = ProdY(sh[1], s + r)
+Init == InitSmall \/ InitProd
 Next == UNCHANGED vars
 Spec == Init /\ [][Next]_vars
 
 B2I(b) == IF b THEN 1 ELSE 0
-YConst == kind = "resp" /\ \A i \in 1..Len(y) : y[i] = y[1]
+HasY == kind \in {"resp", "prodresp"}
+IsProd == kind \in {"prod", "prodresp"}
+\* The rows of the mean-centred matrix and the differences M[i] - M[1] span the same space (each centred row is an average of
+\* differences, each difference is a difference of centred rows): same rank, but the entries stay as small as those of M, which keeps
+\* the elimination of a 33 x 3 or 65 x 4 matrix inside TLC's 32-bit integers (CenterN multiplies everything by n first).
+RowDiff(B) == IF Len(B) = 1 THEN <<[j \in 1..Len(B[1]) |-> 0]>> ELSE [i \in 1..(Len(B) - 1) |-> [j \in 1..Len(B[1]) |-> B[i + 1][j] - B[1][j]]]
+\* a tall matrix is eliminated through its transpose (few rows, few pivots)
+RankT(B) == IF Len(B) > Len(B[1]) THEN Rank(TransposeM(B)) ELSE Rank(B)
+RankC(B) == IF IsProd THEN RankT(RowDiff(B)) ELSE RankCentred(B)
+YConst == HasY /\ \A i \in 1..Len(y) : y[i] = y[1]
+\* class K8 of INPUT-CLASSES.md, decided on the exact data: two equal rows / two equal columns
+DupRow == \E i, k \in 1..Len(M) : i < k /\ M[i] = M[k]
+DupCol == \E j, k \in 1..Len(M[1]) : j < k /\ \A i \in 1..Len(M) : M[i][j] = M[i][k]
+\* PLS1 latent-variable count for the larger shapes: the Krylov sequence s, As, A^2 s, ... stops growing at its dimension d <= rank(X_c),
+\* so its first rank(X_c) members already span the whole Krylov space - and the numbers stay small enough for TLC's integers
+KrylovRankD(B, yy) == LET n == Len(B)
+                          Xc == CenterN(B)
+                          yc == CenterN([i \in 1..n |-> <<yy[i]>>])
+                          yv == [i \in 1..n |-> yc[i][1]]
+                          p == Len(B[1])
+                          s == ERPrim([j \in 1..p |-> ERDotCol(Xc, j, yv, n)])
+                          d == RankC(B)
+                      IN IF d = 0 \/ \A j \in 1..p : s[j] = 0 THEN 0 ELSE Rank(KrylovRows(Gram(Xc), s, d))
+KRank == IF IsProd THEN KrylovRankD(M, y) ELSE KrylovRank(M, y)
 CaseRec == [kind |-> kind, nr |-> Len(M), nc |-> Len(M[1]), cells |-> M, ex |-> ex, y |-> y,
-            rank0 |-> Rank(M), rankc |-> RankCentred(M),
+            rank0 |-> RankT(M), rankc |-> RankC(M),
             cc |-> [j \in 1..Len(M[1]) |-> B2I(ColConst(M, j))],
-            cov |-> IF kind = "resp" THEN B2I(CovNonZero(M, y)) ELSE 0,
-            krank |-> IF kind = "resp" THEN KrylovRank(M, y) ELSE 0,
+            dr |-> B2I(DupRow), dc |-> B2I(DupCol),
+            cov |-> IF HasY THEN B2I(CovNonZero(M, y)) ELSE 0,
+            krank |-> IF HasY THEN KRank ELSE 0,
             ycst |-> B2I(YConst)]
 Emit == PrintT("@@" \o ToJson(CaseRec))
 \* theorems evaluated on every generated case (the exact-rank module checks itself)
-Theorems == /\ RankSane(M)
-            /\ (kind = "resp" /\ YConst) => ~CovNonZero(M, y)          \* a constant response has no covariance with X
-            /\ (kind = "resp" /\ RankCentred(M) = 0) => ~CovNonZero(M, y)
-            /\ kind = "resp" => LET k == KrylovRank(M, y) IN k \in 0..RankCentred(M) /\ (k = 0) = ~CovNonZero(M, y)
+\* cross-checks between two exact routes to the same number cost a second elimination / Krylov sequence: the cases of at most 6 cells in both
+\* tiers, and a fixed third of the larger small cases in the thorough tier
+XCheck == Len(M) * Len(M[1]) <= 6 \/ (ProdTier = "thorough" /\ (M[1][1] + 2 * M[Len(M)][Len(M[1])] + Len(M)) % 3 = 0)
+Theorems == /\ ~IsProd => (RankSane(M) /\ (XCheck => RankCentred(M) = RankT(RowDiff(M))))      \* the two routes to the centred rank agree
+            /\ IsProd => (RankC(M) \in {RankT(M) - 1, RankT(M)} /\ RankC(M) <= Len(M) - 1 /\ RankT(M) <= 3)
+            /\ (HasY /\ YConst) => ~CovNonZero(M, y)          \* a constant response has no covariance with X
+            /\ (HasY /\ RankC(M) = 0) => ~CovNonZero(M, y)
+            /\ HasY => LET k == KRank IN k \in 0..RankC(M) /\ (k = 0) = ~CovNonZero(M, y)
+            /\ (kind = "resp" /\ XCheck) => KrylovRankD(M, y) = KrylovRank(M, y)      \* the truncated Krylov sequence gives the same count on every small case
+            /\ DupRow => RankC(M) <= Len(M) - 2 \/ Len(M) = 1    \* two equal rows: the centred rows span at most n - 2 dimensions
+            /\ (DupCol \/ \E j \in 1..Len(M[1]) : ColConst(M, j)) => RankC(M) <= Len(M[1]) - 1
 ====
